@@ -186,3 +186,25 @@ func ZZ_C14_after(a []int) {
 	zzViewEq(zzSnap(q1), s1, "decoding a later frame changes a packet decoded earlier")
 	zzAssert(zzGlobalWrites() == 0, "monitor: package-level state is written while decoding")
 }
+
+// ZZ_C14_kept: a valid frame of shape a[1:] is read from a stream and the
+// packet is kept; the stream continues with a second frame whose first byte
+// and a[0] body bytes are arbitrary; reading it must leave the first packet
+// unchanged (a reused or pooled read buffer would show here).
+func ZZ_C14_kept(a []int) {
+	n := a[0]
+	abs := zzGen2(zzShapeOf(a[1:]), "K.")
+	s := zzRefEncode(abs)
+	s = append(s, zzU8("b0"), byte(n))
+	s = append(s, zzBytes("b", n)...)
+	r := &zzContig{b: s}
+	q1, err := ReadPacket(r)
+	if err != nil {
+		return
+	}
+	s1 := zzSnap(q1)
+	_, e2 := ReadPacket(r)
+	zzReach("kept")
+	zzEmitU("err", zzB2U(e2 != nil))
+	zzViewEq(zzSnap(q1), s1, "reading the next frame changes the packet returned before")
+}
